@@ -96,6 +96,10 @@ def gen(prop, stream, tier, avoid):
                 at = ["knot", rng.randrange(8)] if rng.chance(0.45) else ["new", rng.randint(1, 127)]
                 dirs[str(d)] = {"at": at, "num": rng.pick([1, 1, 2, 2, 3, 4])}
             ops.append({"op": "insert", "obj": o, "via": rng.pick(["method", "operations"]), "dirs": dirs})
+            if ops[-1]["via"] == "operations" and nd > 1 and rng.chance(0.45):
+                # the caller keeps ONE list of insertion counts and selects the directions with the parameter list only
+                # (num = [2, 2]; insert_knot(s, [0.3, None], num); insert_knot(s, [None, 0.6], num)); or passes obj.degree
+                ops[-1]["held_num"] = rng.pick([1, 1, 2, "degree"])
         elif k == "read":
             ops.append({"op": "read", "obj": o})
         elif k == "reject":
@@ -120,6 +124,8 @@ def gen(prop, stream, tier, avoid):
             for d in rng.sample(range(nd), ndirs):
                 dirs[str(d)] = {"which": rng.randrange(8), "num": rng.pick([1, 1, 2, 3, 4])}
             ops.append({"op": "remove", "obj": o, "via": rng.pick(["method", "operations"]), "dirs": dirs})
+            if ops[-1]["via"] == "operations" and nd > 1 and rng.chance(0.35):
+                ops[-1]["held_num"] = rng.pick([1, 1, 2])
         else:
             dens = [0] * nd
             dens[rng.randrange(nd)] = 1
@@ -200,6 +206,7 @@ class Live:
         self.degrees = list(spec["degrees"])
         self.evalpts_read = False
         self.last_touch = None     # (dir, knot) of the last successful modification
+        self.held_nums = {}        # count -> the list object the simulated caller keeps and passes to every call
         self.pending = {}          # (dir, knot) -> True if an unrelated op happened since it became removable
         self.n_insert_ok = 0
 
@@ -313,11 +320,26 @@ def _views(lv):
     return v
 
 
-def _call_insert(lv, via, params, nums):
+def _held_list(lv, held, plan, avail):
+    """The caller-held list of counts for this call, or None when the counts it holds are not admissible here.
+    plan: [(d, u, r, x)], avail(planitem) -> largest admissible count in that direction."""
+    if held is None or lv.nd < 2:
+        return None
+    if held == "degree":
+        if any(avail(p) != lv.degrees[p[0]] for p in plan):
+            return None
+        lst = lv.obj.degree          # the object's own list, as in insert_knot(s, [0.3, None], s.degree)
+        return lst if isinstance(lst, list) else None
+    if any(avail(p) < held for p in plan):
+        return None
+    return lv.held_nums.setdefault(held, [held] * lv.nd)
+
+
+def _call_insert(lv, via, params, nums, held=None):
     g = shapes.G
     obj = lv.obj
     if via == "operations":
-        g.operations.insert_knot(obj, list(params), list(nums))
+        g.operations.insert_knot(obj, list(params), held if held is not None else list(nums))
         return
     if lv.nd == 1:
         obj.insert_knot(params[0], num=nums[0])
@@ -330,11 +352,11 @@ def _call_insert(lv, via, params, nums):
         obj.insert_knot(**kw)
 
 
-def _call_remove(lv, via, params, nums):
+def _call_remove(lv, via, params, nums, held=None):
     g = shapes.G
     obj = lv.obj
     if via == "operations":
-        g.operations.remove_knot(obj, list(params), list(nums))
+        g.operations.remove_knot(obj, list(params), held if held is not None else list(nums))
         return
     if lv.nd == 1:
         obj.remove_knot(params[0], num=nums[0])
@@ -415,9 +437,15 @@ def run(script, ctx):
             if not plan:
                 ctx.ops_skipped += 1
                 continue
-            what = "insert_knot(%s) params=%r nums=%r" % (op["via"], params, nums)
+            held = _held_list(lv, op.get("held_num"), plan, lambda p: lv.degrees[p[0]] - p[3]) if op["via"] == "operations" else None
+            if held is not None:
+                plan = [(d, u, lv.degrees[d] if op["held_num"] == "degree" else op["held_num"], s) for d, u, r, s in plan]
+                for d, u, r, s in plan:
+                    nums[d] = r
+                ctx.probe("caller_held_count_list:" + str(op["held_num"]))
+            what = "insert_knot(%s) params=%r nums=%r%s" % (op["via"], params, nums, "" if held is None else " (counts passed as the caller-held list %r)" % (list(held),))
             try:
-                _call_insert(lv, op["via"], params, nums)
+                _call_insert(lv, op["via"], params, nums, held)
             except Exception as e:
                 if prop == "C06":
                     raise Precondition("insertion raised %r" % (e,))
@@ -631,7 +659,13 @@ def run(script, ctx):
             if not plan:
                 ctx.ops_skipped += 1
                 continue
-            what = "remove_knot(%s) params=%r nums=%r" % (op["via"], params, nums)
+            held = _held_list(lv, op.get("held_num"), plan, lambda p: p[3]) if op["via"] == "operations" else None
+            if held is not None:
+                plan = [(d, u, op["held_num"], extra) for d, u, r, extra in plan]
+                for d, u, r, extra in plan:
+                    nums[d] = r
+                ctx.probe("caller_held_count_list:remove")
+            what = "remove_knot(%s) params=%r nums=%r%s" % (op["via"], params, nums, "" if held is None else " (counts passed as the caller-held list %r)" % (list(held),))
             for d, u, r, extra in plan:
                 if lv.pending.get((d, u)):
                     ctx.nontrivial = True
@@ -641,7 +675,7 @@ def run(script, ctx):
                 if r < extra:
                     ctx.probe("partial_removal")
             try:
-                _call_remove(lv, op["via"], params, nums)
+                _call_remove(lv, op["via"], params, nums, held)
             except Exception as e:
                 ctx.fail("valid_remove_raised", "%s raised %r on %s degrees=%r knots=%r" % (what, e, kind, lv.degrees, lv.knots), **sig)
             for d, u, r, extra in plan:
